@@ -86,6 +86,8 @@ def draw_mapping_cfg(rng, W, **force):
     # per-level bootstrap factors (the CLI's bootstrap_factor_lookup) in a third of the runs
     if rng.random() < 0.33:
         cfg['factor_lookup'] = {lv: rng.choice([1.0, 0.9, 0.7, 0.5, 0.3]) for lv in (['None'] + list(tax.hierarchy[:-1]))}
+    if getattr(W, 'q_genes_file', None):
+        cfg['map_to_ensembl'] = True
     cfg.update(force)
     if cfg.get('factor_lookup') and 'bootstrap_factor' in force:
         cfg['factor_lookup'] = None
@@ -110,7 +112,10 @@ def setup_mapping_inputs(sb, W, mcfg, query=None, stats_kw=None, markers=None, q
     X = W.q_X if query is None else query
     norm = mcfg.get('normalization', 'raw')
     dtype = mcfg.get('dtype', 'float64')
-    world.write_h5ad(qp, X, q_ids or W.q_ids, q_genes or W.q_genes,
+    names = q_genes or W.q_genes
+    if q_genes is None and mcfg.get('map_to_ensembl') and getattr(W, 'q_genes_file', None):
+        names = W.q_genes_file      # versioned Ensembl ids in the file; W.q_genes is what they map to
+    world.write_h5ad(qp, X, q_ids or W.q_ids, names,
                      encoding=mcfg.get('encoding', 'csr'), dtype=dtype)
     return {'stats': stats, 'markers': mk, 'query': qp}
 
@@ -126,7 +131,8 @@ def mapping_driver_cfg(sb, paths, mcfg, tag='out', out_sub=None):
                                        if mcfg.get('factor_lookup') else None),
               rng_seed=mcfg['rng_seed'], normalization=mcfg.get('normalization', 'raw'),
               drop_level=mcfg.get('drop_level'), flatten=mcfg.get('flatten', False),
-              cloud_safe=mcfg.get('cloud_safe', False), max_gb=mcfg.get('max_gb', 1.0))
+              cloud_safe=mcfg.get('cloud_safe', False), max_gb=mcfg.get('max_gb', 1.0),
+              map_to_ensembl=bool(mcfg.get('map_to_ensembl', False)))
     if mcfg.get('transport') == 'resultdir':
         # tmp_dir None: result buffers go to extended_result_dir
         cfg = drivers.mapping_config(paths['query'], paths['stats'], paths['markers'], out_dir,
